@@ -1132,7 +1132,8 @@ STATEMENTS: dict[str, str] = {
 	'disabled': 'enabled = False: the access log of a run is empty and the cache directory unchanged, for every semantics and world',
 	'tree_key_setting': 'tree_key_setting_statement (tree_key spelled out for histories whose only restriction is KeyOK on edits, i.e. with arbitrary ParserSetting switches) holds — it was refuted before 9dfb5b4 (tree-key-ignores-grammar-path); the refuting history is kept as an example: the second run reads no tree file and its tree carries the mark of the second grammar; real regression corpus/C05/grammar-switch-same-mtime.json',
 	'parser_key_covers': 'GENERATED key list (Generated/LarkCache.parserIdentity, every expression understood) = [grammar mtime, grammar path, start, algorithm] and it covers everything the pickle is built from',
-	'tree_key_inputs': 'GENERATED key list of the tree files (LarkCache.treeIdentity, every expression understood) = [grammar mtime, grammar path, start, algorithm, source mtime]',
+	'tree_key_inputs': 'GENERATED key list of the tree files (LarkCache.treeIdentity, every expression understood) = [grammar mtime, grammar path, start, algorithm, source mtime] followed by the md5 of the source bytes exactly when the dictionary has the key `hash` (treeKeyHasHash — which is what makes the MODEL pass the content hash to Sem.treeIdent: the model follows the generated list)',
+	'tree_key_covers_bytes': 'the generated tree key covers the source BYTES themselves (not only their mtime proxy) iff the dictionary has the key `hash`; without it the law needs a fresh mtime per edit (real witness of the gap: known finding tree-stale:mtime-recurs-same-generation, corpus/C05/mtime-recurs-same-generation.json)',
 	'tree_key_covers': 'the generated tree key covers what a cached tree depends on (the parser\'s inputs and the source); the key before 9dfb5b4, as a literal list, does not (example: exactly grammar path, start, algorithm missing)',
 	'tree_name_exact': 'model = code on the key: two runs give a tree file the same name in the model iff they agree on every input of the GENERATED tree key list',
 	'parser_name_exact': 'the same for the parser pickle and the GENERATED parser key list',
@@ -1213,6 +1214,7 @@ def run(ctx: Ctx) -> int:
 			'key coverage': 'per cache, over key lists GENERATED from the source: parser_key_covers (covers), tree_key_covers (covers since 9dfb5b4; run-level: tree_key admits ParserSetting switches, tree_key_setting), symbol_key_covers (covers the import closure; symbol_key_no_grammar: nothing of the grammar — `symbols`/`output_warm_cold` assume no grammar change); tree_name_exact / parser_name_exact tie the model\'s file names to the generated lists in both directions; the symbol identity is tied statement by statement (symbol_identity_shape), its reading as identityCore/collect is by inspection',
 		},
 		assumptions=[
+			'every edit gives the file an mtime it never had before (model op `edit` draws from the clock) — needed by tree_key while the tree identity has no content hash (tree_key_covers_bytes); the real code is searched with recurring mtimes (op `editat`), the recurrence within one generation is the known finding tree-stale:mtime-recurs-same-generation',
 			'md5 is injective on the identities of a history and hex digests contain no "-" (Hyp.tree_inj, parser_inj, hash_inj, identL_inj, *_nodash) — hypotheses of the theorems, instantiated by unary codes in the examples',
 			'the decoders reject every proper prefix of what the encoders wrote and accept the whole (Hyp.valid_parse, valid_blob, prefix_invalid, dec_prefix)',
 			'a stored symbol table is restored as it was: Hyp.dec_enc — property C14 (C14.rt: export then import restores every entry) composed with the JSON round trip',
